@@ -7,6 +7,8 @@ import ClusterVerif.Gen.C08
 import ClusterVerif.Gen.C08Pb
 import ClusterVerif.Lemmas.C08Prod
 import ClusterVerif.Lemmas.C08Add
+import ClusterVerif.Lemmas.C08AddDec
+import ClusterVerif.Lemmas.C08Util
 import ClusterVerif.Gen.C08Add
 
 /-!
@@ -497,6 +499,94 @@ theorem add_hash_cid_rule (h : String) (hne : h ≠ "") (hs : isSha256 h = false
 
 example : isSha256 "blake2b-256" = false := by decide
 
+/-! ### the decoder on ARBITRARY parameter sets (round 8b; tied to the real `AddParamsFromQuery` by the `aq` cases) -/
+
+/-- `strconv.ParseBool` as modelled accepts exactly six spellings of true … -/
+theorem add_bool_true_spellings (s : String) :
+    parseBool s = some true ↔ s = "1" ∨ s = "t" ∨ s = "T" ∨ s = "TRUE" ∨ s = "true" ∨ s = "True" := parseBool_true_iff s
+
+/-- … and six of false; everything else (`yes`, `tRUE`, `01`, ` true`) is an error -/
+theorem add_bool_false_spellings (s : String) :
+    parseBool s = some false ↔ s = "0" ∨ s = "f" ∨ s = "F" ∨ s = "FALSE" ∨ s = "false" ∨ s = "False" := parseBool_false_iff s
+
+example : parseBool "tRUE" = none ∧ parseBool "yes" = none ∧ parseBool "01" = none ∧ parseBool "T" = some true := by decide
+
+/-- base-10 `Atoi` has no digit separators: `1_0` is refused wherever the underscore stands -/
+theorem add_int_rejects_underscore (s : String) (h : s.toList.any (· == '_') = true) : atoi s = none := atoi_underscore s h
+
+example : ("1_0".toList.any (· == '_')) = true := by decide
+
+/-- whatever integer text is accepted is a 64-bit value -/
+theorem add_int_accepted_in_range (s : String) (i : Int) (h : atoi s = some i) : inInt64 i = true := atoi_range h
+
+/-- the decoder depends on `Values.Get` of its fourteen keys only: two parameter sets that agree there decode alike
+    (order, unknown keys, later values of a repeated key cannot matter) -/
+theorem add_decoder_reads_only_its_keys (q q' : Params) (h : ∀ k ∈ addKeys, getP q k = getP q' k) :
+    fromParams q = fromParams q' := fromParams_congr h
+
+theorem add_decoder_first_value_wins (k v v' : String) (q : Params) :
+    fromParams ((k, v) :: (k, v') :: q) = fromParams ((k, v) :: q) := fromParams_first_value k v v' q
+
+theorem add_decoder_ignores_unknown_keys (k v : String) (q : Params) (hk : k ∉ addKeys) :
+    fromParams ((k, v) :: q) = fromParams q := fromParams_unknown_key k v q hk
+
+example : "Shard" ∉ addKeys ∧ "cid_version" ∉ addKeys := by decide
+
+theorem add_decoder_order_irrelevant (k v k' v' : String) (q : Params) (h : k ≠ k') :
+    fromParams ((k, v) :: (k', v') :: q) = fromParams ((k', v') :: (k, v) :: q) := fromParams_swap k v k' v' q h
+
+/-- all fourteen parameters absent OR EMPTY, whatever else the query holds: the defaults (generalises `add_defaults`) -/
+theorem add_absent_defaults (q : Params) (h : ∀ k ∈ addKeys, getP q k = "") :
+    fromParams q = some { defaultX with format := "" } := fromParams_absent h
+
+example : ∀ k ∈ addKeys, getP [("name", "x"), ("shard", ""), ("foo", "1")] k = "" := by decide
+
+/-- whatever the decoder accepts is a well-formed parameter value (the domain of `add_extras_roundtrip`): known layout
+    and format, named chunker and hash, never CIDv0 with a hash other than sha2-256, a 64-bit version -/
+theorem add_decoded_wf (q : Params) (x : AddX) (h : fromParams q = some x) : wfX x = true := fromParams_wf h
+
+/-- `decoded_reencodes` for the model, ALL parameter sets: an accepted query gives a value that `ToQueryString` writes
+    and `AddParamsFromQuery` reads back unchanged (the decoder's image consists of fixed points of the round trip) -/
+theorem add_decoded_reencodes (q : Params) (x : AddX) (h : fromParams q = some x) :
+    fromParams (toParams x) = some x := fromParams_fixed h
+
+example : fromParams [("shard", "T"), ("raw-leaves", "F"), ("hash", "SHA2-256"), ("layout", "trickle")] =
+    some { defaultX with format := "", shard := true, hashFun := "SHA2-256", layout := "trickle" } := by decide
+
 end AddParams
+
+/-! ## api/util.go: the peer-ID string helpers (round 8b; tied by the `str p2s` / `str s2p` cases) -/
+section PeerStrings
+open CV.C08.Util
+
+/-- `StringsToPeers(PeersToStrings(ps))` is `ps` without the empty IDs, order kept -/
+theorem peers_strings_roundtrip (ps : List (Option Nat)) : stringsToPeers (peersToStrings ps) = ps.filterMap id := s2p_p2s ps
+
+/-- … hence the identity on lists of defined peer IDs -/
+theorem peers_strings_roundtrip_partial (ps : List Nat) : stringsToPeers (peersToStrings (ps.map some)) = ps := s2p_p2s_defined ps
+
+example : stringsToPeers (peersToStrings [some 3, some 0, some 3]) = [3, 0, 3] := by decide
+
+/-- the full statement (every list of peer IDs survives, entry by entry) … -/
+def peers_strings_roundtrip_full : Prop := ∀ ps : List (Option Nat), (stringsToPeers (peersToStrings ps)).map some = ps
+
+/-- … is false: the empty ID is written as "" and skipped on the way back (the K40 pattern; positions shift) -/
+theorem peers_strings_roundtrip_full_fails : ¬ peers_strings_roundtrip_full := by
+  intro h
+  have := h [some 1, none, some 2]
+  revert this; decide
+
+/-- `PeersToStrings` keeps the length (one string per ID), `StringsToPeers` never grows the list -/
+theorem peers_strings_lengths (ps : List (Option Nat)) (ss : List SItem) :
+    (peersToStrings ps).length = ps.length ∧ (stringsToPeers ss).length ≤ ss.length := ⟨p2s_length ps, s2p_length_le ss⟩
+
+/-- what `StringsToPeers` returns, written by `PeersToStrings`, reads back unchanged — for ALL string lists (the CID
+    text form of a peer comes back in base58: same peer) -/
+theorem strings_peers_reencode (ss : List SItem) :
+    stringsToPeers (peersToStrings ((stringsToPeers ss).map some)) = stringsToPeers ss := s2p_p2s_defined _
+
+example : stringsToPeers [.cid 4, .junk, .empty, .b58 1] = [4, 1] := by decide
+
+end PeerStrings
 
 end CV.C08.Props
